@@ -96,6 +96,38 @@ class ShardCtx:
                 self.samples.append(sample() if callable(sample) else sample)
             self.nontrivial.add(case_hash)
 
+    def replay_witnesses(self, mod):
+        """known findings identified by a specific input (signature.kind == 'input'): the committed witness is
+        replayed; while it still fails the finding is reported as KNOWN-FINDING, never as a violation"""
+        for f in self.kf.known(self.prop):
+            sig = f.get("signature", {})
+            if sig.get("kind") != "input":
+                continue
+            path = os.path.join(VERIF, f["witness"])
+            case = json.load(open(path))["case"]
+            try:
+                fails = mod.replay(self, case)
+            except Exception as e:
+                fails = [{"kind": "exception", "detail": str(e)}]
+            if fails:
+                self.known_finding(f["id"], {"witness": f["witness"]})
+            else:
+                self.notes["known-finding-no-longer-reproduces:" + f["id"]] += 1
+
+    def replay_corpus(self, mod, sub="fixed"):
+        """regression corpus (fixed defects, interesting cases): every file must pass"""
+        d = os.path.join(VERIF, "corpus", self.prop, sub)
+        if not os.path.isdir(d):
+            return
+        for fn in sorted(os.listdir(d)):
+            if not fn.endswith(".json"):
+                continue
+            data = json.load(open(os.path.join(d, fn)))
+            fails = mod.replay(self, data["case"])
+            self.notes["corpus_replayed"] += 1
+            for f in fails:
+                self.failures.append({"kind": "regression:" + f["kind"], "detail": f["detail"], "case": data["case"]})
+
     def known_finding(self, fid, example=None):
         self.known_hits[fid] += 1
         if fid not in self.known_examples and example is not None:
